@@ -27,6 +27,28 @@ CHECKS = {
           "listed in the evidence (struct, utf-8, str(int), BytesIO), the induction principle for O5. Bounds: nesting<=1/arity<=2 quick, "
           "<=2/<=2 thorough; decode inputs <=3 (quick)/4 (thorough) bytes; element loops unwound 64 (bounded) / 3 (inductive, cut paths counted)."),
     technique="symbolic execution of the Python AST over rope-modelled byte strings + z3 (LIA, UF, FP); replay on CPython"),
+ "C05": dict(
+    category="other", design_ref="DESIGN.md section 4 (C05)",
+    text=("Symbolic execution of the real Channel.send/recv and SocketStream/PipeStream read/write loops over ropes: packet lengths, the "
+          "compression flag, the length of every partial recv/send, the number of bytes available before the peer closes, the cut offset "
+          "inside a frame and the outcome of each transport call (data/timeout/EAGAIN/EWOULDBLOCK/error) are solver variables; z3 decides "
+          "the threshold (3000/3001), chunk (63995/63996) and length-field boundaries by construction and the equality of what was "
+          "written/read with the reference frame and the original packets."),
+    note=("Trusted: z3, interpreter (validated against CPython on Channel.send at 8 boundary sizes x 2 every run), socket/pipe/zlib stub "
+          "contracts listed in the evidence. Bounds: 2 (quick)/3 (thorough) back-to-back packets; <=3/4 partial I/Os and 1/2 injected faults "
+          "per stream call, paths needing more are cut and counted; payloads < 2^31 bytes."),
+    technique="symbolic execution of the Python AST over rope-modelled byte streams + z3 (LIA, UF); replay on CPython"),
+ "C19": dict(
+    category="other", design_ref="DESIGN.md section 4 (C19)",
+    text=("Differential symbolic check of the real brine.dump/load and Channel.send against an independently typed-in reference of the published "
+          "5.x format: for every value shape and every length class (decided by z3, not sampled) the real encoder's rope must equal the reference "
+          "shortest-form rope, the real decoder must accept every conforming length form the reference can emit, and the frame must equal the "
+          "reference frame; constants, handler table and request argument layouts are compared with the published values. A self-consistent change "
+          "on both ends of rpyc, which every existing test passes, is a disagreement here."),
+    note=("Trusted: the typed-in reference (specs/ref_wire.py, specs/plain_sym.py), z3, interpreter, stub contracts of C04/C05. "
+          "O4 (constants/layouts) is decided by direct comparison, not by the solver. Conversation-level conformance is exercised under the "
+          "reference-peer harnesses of C01/C07/C08."),
+    technique="differential symbolic execution (real codec vs reference codec over ropes) + z3; replay on CPython"),
 }
 
 NOT_YET = {}
